@@ -400,12 +400,15 @@ def first_use_case(data, ev, d, fails, chooser=None, tag=None):
     k = next(_k)
     register_plugin("vf_echo", "vf.props.c16", "EchoCacheImpl")
     T = {
-        "/sub/page.html": ('<%inherit file="base.html"/><%namespace name="ns" file="lib.html"/>'
+        "/sub/page.html": ('<%inherit file="base.html"/><%namespace name="ns" file="lib.html"/><%namespace file="imp.html" import="tag"/>'
                            '<%def name="item(n)" cached="True" cache_timeout="30" cache_region="short">item:${n}</%def>'
-                           'P(<%include file="part.html"/>|${ns.f(x)}|${item(x)}|${self.hns.g(x)})'),
+                           'P(<%include file="part.html"/>|${ns.f(x)}|${item(x)}|${self.hns.g(x)}|${tag(x + 10)})'),
         "/sub/base.html": '<%namespace name="hns" file="lib.html" inheritable="True"/>SUBBASE[${next.body()}]',
         "/sub/part.html": "SUBPART:${x}",
         "/sub/lib.html": '<%def name="f(a)">subf(${a})</%def><%def name="g(a)">subg(${a})</%def>',
+        # imported defs are bound to the context of the render that imports them
+        "/sub/imp.html": '<%def name="tag(v)">[${v}:${x}]</%def>',
+        "/imp.html": '<%def name="tag(v)">ROOTTAG</%def>',
         "/base.html": "ROOTBASE[${next.body()}]",
         "/part.html": "ROOTPART:${x}",
         "/lib.html": '<%def name="f(a)">rootf(${a})</%def><%def name="g(a)">rootg(${a})</%def>',
@@ -426,7 +429,7 @@ def first_use_case(data, ev, d, fails, chooser=None, tag=None):
             solo.append(("exc", type(e).__name__, str(e)[:100]))
     lk = fresh()
     files = {mako.runtime.__file__, mako.cache.__file__, mako.lookup.__file__}
-    mods = {"_sub_page_html", "_sub_base_html", "_sub_lib_html", "_sub_part_html"}
+    mods = {"_sub_page_html", "_sub_base_html", "_sub_lib_html", "_sub_part_html", "_sub_imp_html"}
     sch = S.Scheduler(chooser or S.ByteChooser(data[1:], switch_percent=10 + data[0] % 20), trace=lambda fn: fn in files or fn in mods, max_steps=400000)
 
     def worker(i):
